@@ -114,10 +114,14 @@ Arguments OErr {A} k.
 Arguments OOut {A}.
 
 (* b_count = doc.nodes.len(); b_maxdepth = largest `depth` any parse_xml_node call was entered with *)
-Record bstate := { b_count : Z; b_maxdepth : Z }.
+(* b_next = b_count as a unary number (the NodeId of the next node), kept apart so that no conversion is needed *)
+Record bstate := { b_count : Z; b_maxdepth : Z; b_next : nat }.
 Definition note_depth (st : bstate) (depth : Z) : bstate :=
-  {| b_count := b_count st; b_maxdepth := Z.max (b_maxdepth st) depth |}.
-Definition bump (st : bstate) : bstate := {| b_count := b_count st + 1; b_maxdepth := b_maxdepth st |}.
+  {| b_count := b_count st; b_maxdepth := Z.max (b_maxdepth st) depth; b_next := b_next st |}.
+Definition bump (st : bstate) : bstate :=
+  {| b_count := b_count st + 1; b_maxdepth := b_maxdepth st; b_next := S (b_next st) |}.
+(* parse(): nodes = [Root] *)
+Definition bstate0 : bstate := {| b_count := 1; b_maxdepth := 0; b_next := 1 |}.
 
 Section Limits.
 (* the limits are parameters so that theorems can also speak about "any limits";
@@ -151,7 +155,7 @@ Fixpoint bnode (fuel : nat) (doc x : xnode) (origin : option nat) (ignore_ids : 
       | tag =>
           (* parse_svg_element: the limit is tested before the append *)
           if G_NODES_BEFORE_APPEND && (b_count st >? nodes_limit) then (st, OErr ENodes) else
-          let id := Z.to_nat (b_count st) in
+          let id := b_next st in
           let st1 := bump st in
           let nm := if ignore_ids then None else xname x in
           let mk ks := SN id tag nm (xflag x) (xattrs x) ks in
@@ -179,7 +183,7 @@ Fixpoint bnode (fuel : nat) (doc x : xnode) (origin : option nat) (ignore_ids : 
 (* parse(): the Root node is nodes[0]; the document element is parsed at depth 0 with origin = the
    XML document node (which no href can name). *)
 Definition build_with (fuel : nat) (doc : xnode) : bstate * outcome snode :=
-  match bnode fuel doc doc None false 0 {| b_count := 1; b_maxdepth := 0 |} with
+  match bnode fuel doc doc None false 0 bstate0 with
   | (st, OOk ks) => (st, OOk (SN 0 TOther None false [] ks))
   | (st, OErr k) => (st, OErr k)
   | (st, OOut) => (st, OOut)
